@@ -425,6 +425,13 @@ def widened_revision(model: Dict[str, Any]) -> Dict[str, Any]:
         if d and d.get("k") == "STD" and d.get("base") in ("A_UINT32", "A_INT32") and \
                 d.get("mask") is None and d.get("enc") is None and d.get("bits") in (8, 16, 24):
             d["bits"] += 8
+    # (declared sizes of containers grow generously with their content: padding is legitimate,
+    # content that no longer fits is not)
+    for o in m["dobjs"]:
+        if o.get("t") == "STRUCT" and o.get("byte_size") is not None:
+            o["byte_size"] += 24
+        if o.get("t") == "SFIELD" and o.get("item_size") is not None:
+            o["item_size"] += 24
     return m
 
 
